@@ -89,46 +89,62 @@ End Blocks.
 Lemma forallb_eq {A} (f g : A -> bool) l : (forall x, f x = g x) -> forallb f l = forallb g l.
 Proof. intros H. induction l as [|x r IH]; cbn [forallb]; [reflexivity|]. now rewrite H, IH. Qed.
 
-Lemma within_budget_true rt n l : (forall b, fails_of b l <= rt) -> within_budget rt n l = true.
+Lemma within_budget_true rt first n l : (forall b, fails_of b l <= rt) -> within_budget rt first n l = true.
 Proof. intros H. unfold within_budget. apply forallb_forall. intros b _. apply Nat.leb_le. apply H. Qed.
-Lemma within_budget_false rt n l b : 1 <= b < 1 + n -> fails_of b l = S rt -> within_budget rt n l = false.
+Lemma within_budget_false rt first n l b : first <= b < first + n -> fails_of b l = S rt -> within_budget rt first n l = false.
 Proof.
   intros Hb Hf. unfold within_budget. apply not_true_is_false. intros H.
   rewrite forallb_forall in H. specialize (H b ltac:(apply in_seq; lia)). apply Nat.leb_le in H. lia.
 Qed.
 
-Lemma holds_blocks c l ok : data_blocks (s_faults c) (s_retries c) 1 (s_blocks c) (if s_oack c then 1 else 0) = (l, ok) ->
-  forall pre, (pre = [] \/ pre = [AOack true]) -> holds_send c (pre ++ l, ok) = [].
+Lemma holds_blocks faults rt first n idx l ok : data_blocks faults rt first n idx = (l, ok) ->
+  holds_core rt first n (l, ok) = [].
 Proof.
-  intros H pre Hpre. destruct (data_blocks_spec _ _ _ _ _ _ _ H) as (R & Lo & Hi & T & F).
-  assert (Rp : retried (s_retries c) (pre ++ l) = true) by (destruct Hpre as [-> | ->]; cbn; exact R).
-  assert (Fp : forall b, fails_of b (pre ++ l) = fails_of b l) by (intros b; destruct Hpre as [-> | ->]; reflexivity).
-  assert (Dp : delivered (pre ++ l) = delivered l) by (destruct Hpre as [-> | ->]; reflexivity).
-  assert (Op : oack_failed (pre ++ l) = false).
-  { destruct Hpre as [-> | ->]; [|reflexivity]. cbn [app]. destruct l as [|[[]|] ?]; try reflexivity.
-    (* l cannot start with AOack: every element of l is a DATA call *)
-    exfalso. cbn [data_blocks] in H. destruct (s_blocks c); cbn [data_blocks] in H; [discriminate H|].
-    destruct (data_tries _ _ _ _) as [[l1 i1] ok1] eqn:E1.
-    destruct (data_tries_shape _ _ _ _ _ _ _ E1) as (k & -> & _).
-    destruct ok1; [destruct (data_blocks _ _ _ _ _); injection H as H _|injection H as H _];
-      destruct k; cbn in H; discriminate. }
-  unfold holds_send. rewrite Rp, Op. cbn [orb app].
-  assert (WB : within_budget (s_retries c) (s_blocks c) (pre ++ l) = within_budget (s_retries c) (s_blocks c) l).
-  { unfold within_budget. apply forallb_eq. intros b. now rewrite Fp. }
-  rewrite WB, Dp. destruct ok.
-  - destruct (T eq_refl) as [T1 T2]. rewrite (within_budget_true _ _ _ T2), T1. cbn [andb].
-    destruct (list_eq_dec Nat.eq_dec (seq 1 (s_blocks c)) (seq 1 (s_blocks c))); [reflexivity|congruence].
-  - destruct (F eq_refl) as (b & Hb & Fb). rewrite (within_budget_false _ _ _ b Hb Fb). reflexivity.
+  intros H. destruct (data_blocks_spec _ _ _ _ _ _ _ H) as (R & Lo & Hi & T & F).
+  unfold holds_core. rewrite R. cbn [orb app]. destruct ok.
+  - destruct (T eq_refl) as [T1 T2]. rewrite (within_budget_true _ _ _ _ T2), T1. cbn [andb].
+    destruct (list_eq_dec Nat.eq_dec (seq first n) (seq first n)); [reflexivity|congruence].
+  - destruct (F eq_refl) as (b & Hb & Fb). rewrite (within_budget_false _ _ _ _ b Hb Fb). reflexivity.
 Qed.
+
+(* every call of the block loop is a DATA call, so reading OACK calls as block 0 undoes to_oack *)
+Lemma data_tries_all_data faults blk : forall tries idx,
+  Forall (fun a => match a with AData _ _ => True | _ => False end) (fst (fst (data_tries faults blk tries idx))).
+Proof.
+  induction tries as [|t IH]; intros idx; cbn [data_tries]; [constructor|].
+  destruct (faulty faults idx).
+  - specialize (IH (S idx)). destruct (data_tries faults blk t (S idx)) as [[l i] ok]. cbn [fst] in *.
+    constructor; [exact Logic.I|exact IH].
+  - cbn. repeat constructor.
+Qed.
+Lemma data_blocks_all_data faults rt : forall n blk idx,
+  Forall (fun a => match a with AData _ _ => True | _ => False end) (fst (data_blocks faults rt blk n idx)).
+Proof.
+  induction n as [|n IH]; intros blk idx; cbn [data_blocks]; [constructor|].
+  pose proof (data_tries_all_data faults blk (S rt) idx) as H1.
+  destruct (data_tries faults blk (S rt) idx) as [[l1 i1] ok1]. cbn [fst] in H1.
+  destruct ok1; [|exact H1].
+  specialize (IH (S blk) i1). destruct (data_blocks faults rt (S blk) n i1) as [l2 ok2]. cbn [fst] in *.
+  apply Forall_app. split; assumption.
+Qed.
+Lemma of_to_oack l : Forall (fun a => match a with AData _ _ => True | _ => False end) l ->
+  map of_oack (map to_oack l) = l.
+Proof.
+  induction 1 as [|a l Ha Hl IH]; [reflexivity|]. cbn [map]. rewrite IH. f_equal.
+  destruct a as [|b ok]; [contradiction|]. destruct b; reflexivity.
+Qed.
+Lemma of_oack_data l : Forall (fun a => match a with AData _ _ => True | _ => False end) l -> map of_oack l = l.
+Proof. induction 1 as [|a l Ha Hl IH]; [reflexivity|]. cbn [map]. rewrite IH. destruct a; [contradiction|reflexivity]. Qed.
 
 Theorem send_model_holds c : holds_send c (run_send c) = [].
 Proof.
-  unfold run_send. destruct (s_oack c) eqn:Eo.
-  - destruct (faulty (s_faults c) 0); [reflexivity|].
-    destruct (data_blocks (s_faults c) (s_retries c) 1 (s_blocks c) 1) as [l ok] eqn:E.
-    apply (holds_blocks c l ok) with (pre := [AOack true]); [rewrite Eo; exact E|auto].
-  - destruct (data_blocks (s_faults c) (s_retries c) 1 (s_blocks c) 0) as [l ok] eqn:E.
-    apply (holds_blocks c l ok) with (pre := []); [rewrite Eo; exact E|auto].
+  unfold run_send, run_send_v, holds_send. cbn [andb]. destruct (s_oack c) eqn:Eo.
+  - pose proof (data_blocks_all_data (s_faults c) (s_retries c) (S (s_blocks c)) 0 0) as HA.
+    destruct (data_blocks (s_faults c) (s_retries c) 0 (S (s_blocks c)) 0) as [l ok] eqn:E. cbn [fst snd] in *.
+    rewrite of_to_oack by exact HA. exact (holds_blocks _ _ _ _ _ _ _ E).
+  - pose proof (data_blocks_all_data (s_faults c) (s_retries c) (s_blocks c) 1 0) as HA.
+    destruct (data_blocks (s_faults c) (s_retries c) 1 (s_blocks c) 0) as [l ok] eqn:E. cbn [fst snd] in *.
+    rewrite of_oack_data by exact HA. exact (holds_blocks _ _ _ _ _ _ _ E).
 Qed.
 Print Assumptions send_model_holds.
 
@@ -148,20 +164,28 @@ Proof.
   - eauto.
 Qed.
 
+(* the blocks (and the OACK, read as block 0) that went out *)
+Definition sent_ok (l : list attempt) : list nat := delivered (map of_oack l).
+
 Theorem send_failures_within_budget_deliver c :
-  no_long_run (s_faults c) (s_retries c) -> (s_oack c = true -> faulty (s_faults c) 0 = false) ->
-  snd (run_send c) = true /\ delivered (fst (run_send c)) = seq 1 (s_blocks c).
+  no_long_run (s_faults c) (s_retries c) ->
+  snd (run_send c) = true /\
+  sent_ok (fst (run_send c)) = if s_oack c then seq 0 (S (s_blocks c)) else seq 1 (s_blocks c).
 Proof.
-  intros Hn Ho.
+  intros Hn.
   assert (G : forall n blk idx, exists l, data_blocks (s_faults c) (s_retries c) blk n idx = (l, true)).
   { induction n as [|n IH]; intros blk idx; cbn [data_blocks]; [eauto|].
     destruct (data_tries_ok (s_faults c) blk (S (s_retries c)) idx) as (l1 & i1 & E1).
     { destruct (Hn idx) as (j & Hj & Fj). exists j. split; [lia|exact Fj]. }
     rewrite E1. destruct (IH (S blk) i1) as [l2 E2]. rewrite E2. eauto. }
-  unfold run_send. destruct (s_oack c) eqn:Eo.
-  - rewrite (Ho eq_refl). destruct (G (s_blocks c) 1 1) as [l E]. rewrite E. cbn [fst snd]. split; [reflexivity|].
+  unfold run_send, run_send_v, sent_ok. cbn [andb]. destruct (s_oack c) eqn:Eo.
+  - pose proof (data_blocks_all_data (s_faults c) (s_retries c) (S (s_blocks c)) 0 0) as HA.
+    destruct (G (S (s_blocks c)) 0 0) as [l E]. rewrite E in *. cbn [fst snd] in *. split; [reflexivity|].
+    rewrite of_to_oack by exact HA.
     destruct (data_blocks_spec _ _ _ _ _ _ _ E) as (_ & _ & _ & T & _). exact (proj1 (T eq_refl)).
-  - destruct (G (s_blocks c) 1 0) as [l E]. rewrite E. cbn [fst snd]. split; [reflexivity|].
+  - pose proof (data_blocks_all_data (s_faults c) (s_retries c) (s_blocks c) 1 0) as HA.
+    destruct (G (s_blocks c) 1 0) as [l E]. rewrite E in *. cbn [fst snd] in *. split; [reflexivity|].
+    rewrite of_oack_data by exact HA.
     destruct (data_blocks_spec _ _ _ _ _ _ _ E) as (_ & _ & _ & T & _). exact (proj1 (T eq_refl)).
 Qed.
 Print Assumptions send_failures_within_budget_deliver.
